@@ -658,6 +658,18 @@ def Snap.readWithDelta (a : Snap) (d : Delta) : Res (Snap × List Warning) :=
     | .err e => .err e
     | .panic p => .panic p
 
+/-- The three readers as the Rust API has them, writing into a target `&mut self` that may have
+held another snapshot: `RawSnap::read*` start with `self.clear()` and `build_from_raw` starts with
+`self.extended_types.clear()`, so nothing of the target survives — the model functions above take no
+target at all.  These wrappers make the target explicit (the harness checks the implementation
+against exactly this: `C10+C11/target-reuse-differs`). -/
+def Snap.readWithDeltaInto (_target : Snap) (a : Snap) (d : Delta) : Res (Snap × List Warning) :=
+  a.readWithDelta d
+def Snap.readFromIntsInto (_target : Snap) (data : List Int) : Res (Snap × List Warning) :=
+  Snap.readFromInts data
+def Snap.readBytesInto (_target : Snap) (bs : List UInt8) : Res (Snap × List Warning) :=
+  Snap.readBytes bs
+
 def Snap.crc (s : Snap) : Int := s.raw.crc
 
 /-- `Snap::raw_type_id`; `none` = assertion panic for an ordinal outside `1..0x3fff` -/
